@@ -4,6 +4,8 @@ import SynthVerif.Props.C10Sine
 import SynthVerif.Props.C11
 import SynthVerif.Props.C12
 import SynthVerif.Props.C17
+import SynthVerif.Props.C17Lfo
+import SynthVerif.Props.C11Drift
 /-!
 # Tie 1d, end to end, `lfo.rs`: C10, C11, C12, C17 restated for the *translated source*
 
@@ -149,5 +151,28 @@ theorem c17_tick_total (s : Src.lfo.Lfo) (h : Tie.Lfo.WF s) (hinc : s.phase_accu
   cases ht : Src.lfo.Lfo.tick s with
   | none => rw [ht, hl] at hmap; simp at hmap
   | some s' => exact ⟨s', rfl⟩
+
+/-- **every history with in-range arguments returns**: from `Lfo::new(σ)`, any interleaving of `tick`, `reset`,
+`set_phase(p)` (any f32) and `set_frequency(φ)`, `0 ≤ φ ≤ σ`, runs on the source without a panic -/
+theorem c17_history (σ : ℚ) (ns : Bool) (hσ : 0 < σ) (hσ' : σ ≤ 2 ^ (100:ℤ)) (ops : List C10.Op)
+    (hw : ∀ o ∈ ops, C17.lfoOpWf σ o) :
+    ∃ s', (Src.lfo.Lfo.new (.fin σ ns)).bind (Tie.Lfo.run · ops) = some s' ∧ Tie.Lfo.WF s' := by
+  obtain ⟨l', hl, _⟩ := C17.lfo_ok σ ns hσ hσ' ops hw
+  obtain ⟨s0, h0, hwf0, habs0⟩ := Tie.Lfo.new_tie (.fin σ ns)
+  obtain ⟨hmap, hwf⟩ := Tie.Lfo.run_tie ops s0 hwf0
+  rw [habs0, hl] at hmap
+  rw [h0, Option.bind_some]
+  cases hr : Tie.Lfo.run s0 ops with
+  | none => rw [hr] at hmap; simp at hmap
+  | some s' => exact ⟨s', rfl, hwf s' hr⟩
+
+/-- **no drift**: `n` ticks with no call in between move the counter by exactly `n · increment` modulo 2^24 -/
+theorem c11_ticks (n : ℕ) (s s' : Src.lfo.Lfo) (h : Tie.Lfo.WF s)
+    (hr : Tie.Lfo.run s (List.replicate n .tick) = some s') :
+    s'.phase_accumulator.accumulator =
+      (s.phase_accumulator.accumulator + n * s.phase_accumulator.increment) % 2 ^ 24 := by
+  obtain ⟨hmap, _⟩ := Tie.Lfo.run_tie (List.replicate n .tick) s h
+  rw [hr] at hmap
+  exact (C11.ticks_advance n _ _ (Tie.Lfo.ok_of_wf s h) hmap.symm).1
 
 end Tie.TransferLfo
